@@ -9,3 +9,14 @@ func SameValue(a, b interface{}) bool     { return false }
 // ConvertAssign runs database/sql's own (unexported) convertAssign under the
 // engine; it exists only in the symbolic build.
 func ConvertAssign(dest, src interface{}) error { return nil }
+
+// Go starts a goroutine of the harness (an interpreter thread under the engine).
+func Go(f func()) {}
+
+// WaitAll joins every goroutine started with Go and those started by the code under test.
+func WaitAll() {}
+
+func nativeYield() {}
+
+// StartAll lets the goroutines started with Go run up to their first blocking point.
+func StartAll() {}
